@@ -478,18 +478,19 @@ def _first_use_once(k, order, with_cache):
 
 
 def run_first_use(args):
-    seed, n = args
+    """a sweep over the point at which the second thread cuts in: shard `i` of 16 takes the points k = i, i + 16, ... (every line-step
+    of the first thread's first call is tried by some shard), the thorough tier both orders and both pipelines"""
+    seed, shard, both = args
     rng = random.Random(seed)
     problems, steps, runs = [], 0, 0
-    for _ in range(n):
-        k = rng.choice([rng.randint(0, 40), rng.randint(0, 150), rng.randint(0, 400)])
-        order = rng.choice([(0, 1), (1, 0)])
-        with_cache = rng.random() < 0.4
-        pr, st = _first_use_once(k, order, with_cache)
-        runs += 1
-        steps += st
-        for p in pr:
-            problems.append({'k': k, 'order': order, 'with_cache': with_cache, 'msg': p})
+    for k in range(shard, 352, 16):
+        variants = [((0, 1), False), ((1, 0), True)] if both else [(rng.choice([(0, 1), (1, 0)]), rng.random() < 0.3)]
+        for order, with_cache in variants:
+            pr, st = _first_use_once(k, order, with_cache)
+            runs += 1
+            steps += st
+            for p in pr:
+                problems.append({'k': k, 'order': order, 'with_cache': with_cache, 'msg': p})
         if problems:
             break
     return {'first_use_runs': runs, 'gates': steps}, problems
